@@ -83,6 +83,9 @@ def showVal : Option (Val UInt64) → String
 
 def handle (f : List String) : String :=
   match f with
+  -- the expression in another place than `r = E`: the model has nothing to say about the statement
+  -- around it; the property is evaluated on the implementation
+  | ["foldpos", _pos, _rpn, _tbl, _lines] => "POS"
   | ["fold", rpn, tbl, linesS] =>
     match parseE rpn with
     | none => "BAD-CASE"
